@@ -1,0 +1,70 @@
+#pragma once
+// Verification hooks (compiled only with -DGMGPOLAR_VERIF; otherwise every macro below expands to nothing).
+// An event log of the vector-level operations a multigrid cycle / solve performs, recorded at nesting depth 0
+// only (vector operations that run inside an operator are part of that operator and are not logged).
+#ifdef GMGPOLAR_VERIF
+#include <omp.h>
+#include <vector>
+
+struct GMGPolarVerif; // harness-side accessor, declared a friend of the classes whose private members it drives
+
+struct VerifEvent {
+    const char* op;
+    int level;
+    const void* a;
+    const void* b;
+    const void* c;
+    double s1;
+    double s2;
+};
+
+struct VerifSink {
+    static std::vector<VerifEvent>& events()
+    {
+        static std::vector<VerifEvent> e;
+        return e;
+    }
+    static int& depth()
+    {
+        static int d = 0;
+        return d;
+    }
+    static bool& enabled()
+    {
+        static bool on = false;
+        return on;
+    }
+};
+
+struct VerifScope {
+    bool active;
+    VerifScope(const char* op, int level, const void* a = nullptr, const void* b = nullptr, const void* c = nullptr,
+               double s1 = 0.0, double s2 = 0.0)
+        : active(VerifSink::enabled() && !omp_in_parallel())
+    {
+        if (active && VerifSink::depth()++ == 0)
+            VerifSink::events().push_back(VerifEvent{op, level, a, b, c, s1, s2});
+    }
+    ~VerifScope()
+    {
+        if (active)
+            --VerifSink::depth();
+    }
+};
+#define VERIF_CONCAT2(a, b) a##b
+#define VERIF_CONCAT(a, b) VERIF_CONCAT2(a, b)
+#define VERIF_TRACE(...) VerifScope VERIF_CONCAT(verif_scope_, __LINE__)(__VA_ARGS__)
+// a point event (no nesting scope)
+inline void verif_event(const char* op, int level, double s1 = 0.0, double s2 = 0.0, double s3 = 0.0)
+{
+    if (VerifSink::enabled() && !omp_in_parallel() && VerifSink::depth() == 0)
+        VerifSink::events().push_back(VerifEvent{op, level, nullptr, nullptr, nullptr, s1, s2});
+    (void)s3;
+}
+#define VERIF_EVENT(...) verif_event(__VA_ARGS__)
+#define VERIF_FRIEND friend struct GMGPolarVerif;
+#else
+#define VERIF_TRACE(...)
+#define VERIF_EVENT(...)
+#define VERIF_FRIEND
+#endif
